@@ -258,3 +258,32 @@ def qualname_of(module, fn):
     c = enclosing_class(fn)
     name = getattr(fn, 'name', '<lambda>')
     return '%s.%s.%s' % (module.name, c.name, name) if c is not None else '%s.%s' % (module.name, name)
+
+
+def called_names(fn_node):
+    """names of everything a function body calls: `np.nanargmin(..)` -> 'nanargmin', `convolve1d(..)` -> 'convolve1d'"""
+    out = set()
+    for n in ast.walk(fn_node):
+        if isinstance(n, ast.Call):
+            f = n.func
+            if isinstance(f, ast.Attribute):
+                out.add(f.attr)
+            elif isinstance(f, ast.Name):
+                out.add(f.id)
+    return out
+
+
+def functions_calling(module, names):
+    """[(qualname, FunctionDef, ClassInfo or None)] of the functions / methods of a module whose body calls one of `names`
+    (a stage of the pipeline found by the library kernel it uses, whatever it is called and wherever it was moved)"""
+    names = set(names)
+    out = []
+    for name, node in module.funcs.items():
+        if called_names(node) & names:
+            out.append(('%s.%s' % (module.name, name), node, None))
+    for ci in module.classes.values():
+        for name, entries in ci.own_members().items():
+            for kind, node in entries:
+                if isinstance(node, ast.FunctionDef) and called_names(node) & names:
+                    out.append(('%s.%s.%s' % (module.name, ci.name, name), node, ci))
+    return out
